@@ -34,7 +34,8 @@ def pick(sec, *keys):
 
 for sid in sorted(os.listdir(os.path.join(ROOT, "seeded"))):
     d = os.path.join(ROOT, "seeded", sid)
-    if not os.path.isdir(d) or sid not in props:
+    pid = sid.rstrip("b")      # second-round changes are stored as <id>b
+    if not os.path.isdir(d) or pid not in props:
         continue
     notes = open(os.path.join(d, "notes.md")).read()
     sec = sections(notes)
@@ -48,9 +49,9 @@ for sid in sorted(os.listdir(os.path.join(ROOT, "seeded"))):
                          exit=r["exit"], caught=r["caught"], first_violation_signature=r.get("first_signature", "")))
     meta = dict(
         seed=sid,
-        breaks_property=sid,
-        property_title=props[sid]["title"],
-        origin="written by a fresh sub-agent that was given only the text of property %s and a scratch git worktree of /repo" % sid,
+        breaks_property=pid,
+        property_title=props[pid]["title"],
+        origin="written by a fresh sub-agent that was given only the text of property %s and a scratch git worktree of /repo%s" % (pid, " (second round: asked for a mechanism different from seeded/%s)" % pid if sid != pid else ""),
         files_changed=files,
         change=pick(sec, "change", "what")[:1500] if not pick(sec, "the change") else pick(sec, "the change")[:1500],
         why_it_breaks_the_property=pick(sec, "why")[:2500],
